@@ -94,8 +94,14 @@ def gen_case(seed: int, tier: str, index: int) -> Dict[str, Any]:
         budget = cfg["tables"]["idle"]["PROTOCOL_RETRY_COUNT"]
         rules = []
         total = 0
+        # tuning knob: after how long the polling caller is told "took too long to connect" (shipped 45 s); the handshake itself goes on
+        # for as long as every step stays inside its own retry budget, so long loss patterns run past that moment
+        long_pattern = rng.random() < 0.3
+        if long_pattern:
+            cfg["consts"] = {"CONNECTION_TIMEOUT_IN_SECONDS": rng.choice([45, 10, 3])}
+            cfg["long_pattern"] = True
         for verb_req, verb_rep in (("AVERS", "SVERS"), ("CURCH", "CHCUR"), ("SFILE", "FILES")):
-            k = rng.choice([0, 0, 1, 2, 3])
+            k = rng.choice([0, 0, 1, 2, 3]) if not long_pattern else rng.choice([0, 2, 3, budget - 1])
             k = min(k, budget - 1)
             for _ in range(k):
                 if rng.random() < 0.5:
@@ -122,6 +128,9 @@ def gen_case(seed: int, tier: str, index: int) -> Dict[str, Any]:
             # but the failing handler must not take the engine down
             rules = []
             cfg["unknown_version"] = rng.choice(["config", "log"])
+        if cfg.get("sim_reliability") or cfg.get("unknown_version"):
+            cfg.pop("consts", None)
+            cfg.pop("long_pattern", None)
         cfg["net"]["rules"] = rules
         cfg.update(T=T, lost_attempts=total, snapshot=snapshot_files()[rng.randrange(len(snapshot_files()))].split("/")[-1])
     plan.sort(key=lambda o: (o.get("t", 0), o.get("caller", 0), o.get("j", 0))) if sub == "sends" else None
@@ -504,9 +513,13 @@ def sub_handshake(world: WorldT) -> None:
         try:
             return spa.is_connected
         except RuntimeError as e:
+            if cfg.get("long_pattern"):
+                # "took too long to connect": what a polling caller is told after CONNECTION_TIMEOUT_IN_SECONDS; the handshake goes on
+                res.probe("caller_told_too_long_while_the_handshake_goes_on")
+                return False
             state["err"] = repr(e)
             return True
-    ok = world.wait_until(connected, 44.0 if cfg.get("sim_reliability") else min(bound, 44.0), step=0.05)
+    ok = world.wait_until(connected, 44.0 if cfg.get("sim_reliability") else (min(bound, 600.0) if cfg.get("long_pattern") else min(bound, 44.0)), step=0.05)
     ctx = f"T={T} lost_attempts={lost} rules={cfg['net']['rules'][:6]} snapshot={cfg['snapshot']}"
     fired = res.faults.get("scripted_drop", 0)
     if unreliable and (state["err"] or not ok or not spa._is_connected):
@@ -611,7 +624,7 @@ ASSUMPTIONS = [
     "registration changes are made between datagrams, so 'the first registered handler that accepts it' is unambiguous",
     "the ping thread may die of the 45 s connection timeout in long loss patterns; the statement is about the handshake",
 ]
-PROBES = ["backlog_longer_than_timeout", "registered_while_engine_tidies_up", "handshake_with_unknown_version", "unreliable_simulator_handshake_completed", "incoming_traffic_while_sending", "multi_caller", "preempted_inside_udp_socket", "handler_removed_while_running", "no_handler_accepts", "handler_raised_in_handle",
+PROBES = ["caller_told_too_long_while_the_handshake_goes_on", "backlog_longer_than_timeout", "registered_while_engine_tidies_up", "handshake_with_unknown_version", "unreliable_simulator_handshake_completed", "incoming_traffic_while_sending", "multi_caller", "preempted_inside_udp_socket", "handler_removed_while_running", "no_handler_accepts", "handler_raised_in_handle",
           "handler_raised_in_handled", "unanswered", "answered", "answer_after_removal", "handshake_with_losses", "segment_lost_during_handshake"]
 N_QUICK = 4800
 
